@@ -276,21 +276,46 @@ func checkDateTimeCore(c dCase) (site, msg string) {
 		q := make(chan os.Signal)
 		done := make(chan error, 1)
 		go func() { done <- u.Listen(rec, q) }()
-		for i := 0; i < 2000 && !rec.connected(); i++ {
+		for i := 0; i < 200000 && !rec.connected(); i++ {
+			time.Sleep(50 * time.Microsecond)
+		}
+		for i := 0; i < 200000 && !drv.Listening(); i++ { // (the in-memory driver accepts datagrams once the library has called its Listen)
 			time.Sleep(50 * time.Microsecond)
 		}
 		drv.Push(s)
 		for i := 0; i < 20000 && rec.count() == 0; i++ {
 			time.Sleep(50 * time.Microsecond)
 		}
+		// the same controller again with its clock a little less than a day back, then a little less than a day on (a clock
+		// that was corrected between two events, events replayed from the store): every event is decoded on its own
+		var laterTexts []string
+		for k, delta := range []time.Duration{-(24*time.Hour - 60*time.Second), 24*time.Hour - 90*time.Second} {
+			at := time.Date(c.Y, time.Month(c.M), c.D, c.H, c.Mi, c.S, 0, time.UTC).Add(delta)
+			if at.Year() < 2000 || at.Year() > 2068 || !zones.CivilExists(time.Local, at.Year(), int(at.Month()), at.Day(), at.Hour(), at.Minute(), at.Second()) {
+				break
+			}
+			s2 := append([]byte(nil), s...)
+			s2[off], s2[off+1], s2[off+2] = bcd(at.Year()%100), bcd(int(at.Month())), bcd(at.Day())
+			s2[toff], s2[toff+1], s2[toff+2] = bcd(at.Hour()), bcd(at.Minute()), bcd(at.Second())
+			laterTexts = append(laterTexts, fmt.Sprintf("%04d-%02d-%02d %02d:%02d:%02d", at.Year(), int(at.Month()), at.Day(), at.Hour(), at.Minute(), at.Second()))
+			drv.Push(s2)
+			for i := 0; i < 20000 && rec.count() < k+2; i++ {
+				time.Sleep(50 * time.Microsecond)
+			}
+		}
 		close(q)
 		<-done
 		first, nev, errs := rec.first()
-		if nev != 1 {
-			return "uhppote.Listen/no-event", fmt.Sprintf("event with system date+time %s: %d events, errors %v", text, nev, errs)
+		if nev != 1+len(laterTexts) {
+			return "uhppote.Listen/no-event", fmt.Sprintf("event with system date+time %s (and %d more from the same controller): %d events, errors %v", text, len(laterTexts), nev, errs)
 		}
 		if got := api.DateTimeText(first.SystemDateTime); got != text {
 			return "uhppote.Listen/system-datetime", fmt.Sprintf("event system date+time %s came back as %s", text, got)
+		}
+		for k, want := range laterTexts {
+			if got := api.DateTimeText(rec.at(k + 1).SystemDateTime); got != want {
+				return "uhppote.Listen/system-datetime", fmt.Sprintf("event %d of the same controller: system date+time %s came back as %s (the event before it carried %s)", k+2, want, got, append([]string{text}, laterTexts...)[k])
+			}
 		}
 	}
 	return "", ""
@@ -531,6 +556,14 @@ func (r *recorder) count() int {
 	r.mu.Lock()
 	defer r.mu.Unlock()
 	return len(r.events) + len(r.errs)
+}
+func (r *recorder) at(i int) types.Status {
+	r.mu.Lock()
+	defer r.mu.Unlock()
+	if i >= len(r.events) {
+		return types.Status{}
+	}
+	return r.events[i]
 }
 func (r *recorder) first() (types.Status, int, []string) {
 	r.mu.Lock()
